@@ -87,7 +87,7 @@ func c35(r *simk.Run) *simk.Violation {
 
 	s.Run(r.T, func() {
 		ctx := context.Background()
-		rand.Seed(12345) //nolint:staticcheck // the node picks the peer to ask with the global source
+		rand.Seed(12345)               //nolint:staticcheck // the node picks the peer to ask with the global source
 		fp.stuck = make(chan struct{}) // created inside the bubble
 		weight := &atomic.Uint64{}
 		weight.Store(1 << 40)
